@@ -56,7 +56,17 @@ func main() {
 			s := string(prefix)
 			got, cl := rt(s)
 			counts[cl]++
-			if cl != "same" {
+			if os.Getenv("FUZZ_HEX") != "" {
+				if cl == "diff" {
+					if got == "" {
+						fmt.Printf("%x diff -\n", s)
+					} else {
+						fmt.Printf("%x diff %x\n", s, got)
+					}
+				} else {
+					fmt.Printf("%x %s\n", s, cl)
+				}
+			} else if cl != "same" {
 				fmt.Printf("%s\t%q\t%q\n", cl, s, got)
 			}
 		}
